@@ -28,7 +28,7 @@ YOUR TASK: make ONE small, realistic source change (the kind of slip or 'optimis
   (b) ordinary use does not expose it at once: it must need something specific to manifest -- an unusual but legal input, a particular allocation/ordering/length, a multi-step sequence of operations, a fault at a particular point, or two cooperating sites that each look fine alone.
 Do not edit the tests. Do not edit the .pyx files' cdef kernels (they cannot be recompiled here; Cython is not installed -- Python-level code in .pyx files is likewise not recompiled, so prefer .py files). Do not break unrelated behaviour more than necessary.
 
-Then write a demonstration program {wt}/_out/demo.py that exits 0 when the property holds and exits 1 (printing what went wrong) when it is violated: it must FAIL with your change and PASS without it (verify both: save your change with `git diff -- smpl_extract > _out/patch.diff`, undo it with `git apply -R _out/patch.diff`, run the demo, re-apply with `git apply _out/patch.diff`. NEVER use `git stash`: the stash is shared with other worktrees of this repository and other people are working in them right now. Before you finish, check that `git status` shows only the file(s) you meant to change). The demo must import the worktree's code: start it with `import sys; sys.path.insert(0, "{wt}")`. There are no sample disc images available: build any input bytes you need inside the demo (read the parsers to learn the formats), or drive the relevant classes/functions directly.
+Then write a demonstration program {wt}/_out/demo.py that exits 0 when the property holds and exits 1 (printing what went wrong) when it is violated: it must FAIL with your change and PASS without it (verify both: save your change with `git diff -- smpl_extract > _out/patch.diff`, undo it with `git apply -R _out/patch.diff`, run the demo, re-apply with `git apply _out/patch.diff`. NEVER use `git stash`: the stash is shared with other worktrees of this repository and other people are working in them right now. Before you finish, check that `git status` shows only the file(s) you meant to change). The demo must import the worktree's code: start it with `import sys; sys.path.insert(0, "{wt}")`. There are no sample disc images available: build any input bytes you need inside the demo (read the parsers to learn the formats), or drive the relevant classes/functions directly. The broken behaviour must be REACHABLE by a user of the tool: through `ls` / `export` on some input file, or through the public function / class the property names, fed with inputs that the tool's own parsers or callers can produce -- a defect that only shows on an object graph you assemble by hand and that no parser ever builds does not count.
 
 {avoid_text}Deliverables (all under {wt}/_out/):
   patch.diff  -- output of `cd {wt} && git diff -- smpl_extract` (your change only)
